@@ -370,7 +370,7 @@ def known_match(known: list[dict], prop: str, signature: str) -> Optional[dict]:
 # ----------------------------------------------------------------------------
 # the check driver
 # ----------------------------------------------------------------------------
-def run_check(prop: str, sim_name: str, tier: str, cfg: dict, meta: dict) -> int:
+def run_batch(prop: str, sim_name: str, tier: str, cfg: dict, meta: dict):
     t_start = boot.REAL_TIME()
     base_seed = int(os.environ.get("VERIF_SEED", "0") or 0)
     nworkers = int(os.environ.get("VERIF_WORKERS", "0") or 0) or min(16, os.cpu_count() or 4)
@@ -619,20 +619,44 @@ def run_check(prop: str, sim_name: str, tier: str, cfg: dict, meta: dict) -> int
         "wall_s": round(wall_total, 2),
         "violations": len(unknown),
     }
-    os.makedirs(os.path.join(VERIF, "evidence"), exist_ok=True)
-    with open(os.path.join(VERIF, "evidence", prop + ".json"), "w") as f:
-        json.dump(evidence, f, indent=1, default=str)
-
     for ln in lines:
         print(ln)
     for m in harness_msgs:
         print("HARNESS-ERROR: " + m)
     print(
-        "summary %s: executed=%d nontrivial_distinct=%d inconclusive=%d dropped=%d known=%d violations=%d determinism=%d/%d wall=%.1fs runs/h=%d"
-        % (prop, n_exec, len(nontrivial_digests), inconclusive, dropped, len(known_seen), len(unknown), pairs - len(mismatches), pairs, wall_total, evidence["coverage"]["runs_per_hour"]),
+        "summary %s[%s]: executed=%d nontrivial_distinct=%d inconclusive=%d dropped=%d known=%d violations=%d determinism=%d/%d wall=%.1fs runs/h=%d"
+        % (prop, sim_name, n_exec, len(nontrivial_digests), inconclusive, dropped, len(known_seen), len(unknown), pairs - len(mismatches), pairs, wall_total, evidence["coverage"]["runs_per_hour"]),
         flush=True,
     )
-    return exit_code
+    return exit_code, evidence
+
+
+def run_check(prop: str, batches: list, tier: str) -> int:
+    """batches: [(sim_name, cfg, meta)]; the first is the primary simulator of the property, further
+    ones (e.g. tier B of C20) are run after it and reported inside the same evidence file."""
+    codes = []
+    evidence = None
+    for i, (sim_name, cfg, meta) in enumerate(batches):
+        code, ev = run_batch(prop, sim_name, tier, cfg, meta)
+        codes.append(code)
+        if evidence is None:
+            evidence = ev
+        else:
+            c0, c1 = evidence["coverage"], ev["coverage"]
+            c0.setdefault("further_simulators", {})[sim_name] = c1
+            c0["evaluations"] += c1["evaluations"]
+            c0["distinct_nontrivial"] += c1["distinct_nontrivial"]
+            c0["samples"] = c0["samples"] + c1["samples"][:2]
+            evidence["wall_s"] = round(evidence["wall_s"] + ev["wall_s"], 2)
+            evidence["violations"] += ev["violations"]
+    os.makedirs(os.path.join(VERIF, "evidence"), exist_ok=True)
+    with open(os.path.join(VERIF, "evidence", prop + ".json"), "w") as f:
+        json.dump(evidence, f, indent=1, default=str)
+    if 1 in codes:
+        return 1
+    if 2 in codes:
+        return 2
+    return 0
 
 
 def replay_file(path: str) -> int:
